@@ -257,25 +257,70 @@ fn one_runtime(verif_seed: u64, round: u64, sched: &str) -> Value {
 
 // ---------------------------------------------------------------- parent
 
+/// One cold process per execution, in its own process group and with a real-time guard: code under
+/// test that starts helper processes or blocks on something outside shuttle's view would otherwise
+/// stall the whole tier. A guarded-out execution is inconclusive (counted, never judged).
 fn spawn_one(kind: &str, seed: u64, round: u64, sched: &str) -> Option<Value> {
+    use std::io::Read;
+    use std::os::unix::process::CommandExt;
     let exe = std::env::current_exe().ok()?;
-    let o = std::process::Command::new(exe).args(["one", kind, &seed.to_string(), &round.to_string(), sched]).stderr(std::process::Stdio::null()).output().ok()?;
-    if !o.status.success() {
-        return Some(json!({"crashed": format!("{}", o.status)}));
+    let mut child = std::process::Command::new(exe)
+        .args(["one", kind, &seed.to_string(), &round.to_string(), sched])
+        .stdin(std::process::Stdio::null())
+        .stdout(std::process::Stdio::piped())
+        .stderr(std::process::Stdio::null())
+        .process_group(0)
+        .spawn()
+        .ok()?;
+    let mut out = child.stdout.take()?;
+    let reader = std::thread::spawn(move || {
+        let mut b = Vec::new();
+        let _ = out.read_to_end(&mut b);
+        b
+    });
+    let t0 = std::time::Instant::now();
+    let status = loop {
+        match child.try_wait() {
+            Ok(Some(st)) => break Some(st),
+            Ok(None) => {}
+            Err(_) => break None,
+        }
+        if t0.elapsed().as_secs() >= GUARD_S {
+            break None;
+        }
+        std::thread::sleep(std::time::Duration::from_millis(5));
+    };
+    // whatever the execution left behind (helpers holding the pipe) goes with its group
+    let _ = std::process::Command::new("kill").args(["-9", "--", &format!("-{}", child.id())]).stderr(std::process::Stdio::null()).status();
+    let _ = child.wait();
+    let bytes = reader.join().unwrap_or_default();
+    let status = match status {
+        Some(s) => s,
+        None => return Some(json!({"timeout": GUARD_S})),
+    };
+    if !status.success() {
+        return Some(json!({"crashed": format!("{}", status)}));
     }
-    serde_json::from_slice(&o.stdout).ok()
+    serde_json::from_slice(&bytes).ok()
 }
+
+const GUARD_S: u64 = 120;
 
 fn check(kind: &str, seed: u64, rounds: u64, schedules: u64) -> i32 {
     let mut executions = 0u64;
     let mut violations: Vec<Value> = Vec::new();
     let mut rounds_done = 0u64;
+    let mut guarded = 0u64;
     let mut events = 0u64;
     let mut scenarios: BTreeMap<String, u64> = BTreeMap::new();
     let nworkers = std::thread::available_parallelism().map(|n| n.get()).unwrap_or(8) as u64;
     for round in 0..rounds {
         let reference = match spawn_one(kind, seed, round, "ref") {
-            Some(r) if r["crashed"].is_null() && r["error"].is_null() => r,
+            Some(r) if r["crashed"].is_null() && r["error"].is_null() && r["timeout"].is_null() => r,
+            Some(r) if !r["timeout"].is_null() => {
+                guarded += 1;
+                continue;
+            }
             _ => continue,
         };
         rounds_done += 1;
@@ -303,6 +348,10 @@ fn check(kind: &str, seed: u64, rounds: u64, schedules: u64) -> i32 {
                     Some(r) => r,
                     None => continue,
                 };
+                if !r["timeout"].is_null() {
+                    guarded += 1;
+                    continue;
+                }
                 if !r["crashed"].is_null() {
                     violations.push(json!({"round": round, "sched_seed": sched_seed, "detail": format!("the execution under schedule {sched_seed} did not complete ({}): deadlock or abort inside the code under test", r["crashed"])}));
                     continue;
@@ -331,7 +380,7 @@ fn check(kind: &str, seed: u64, rounds: u64, schedules: u64) -> i32 {
             break;
         }
     }
-    println!("{}", json!({"kind": kind, "rounds": rounds_done, "executions": executions, "events": events, "scenarios": scenarios, "violations": violations}));
+    println!("{}", json!({"kind": kind, "rounds": rounds_done, "executions": executions, "events": events, "scenarios": scenarios, "guarded_out": guarded, "violations": violations}));
     0
 }
 
